@@ -99,6 +99,8 @@ SPEC = {
         'chainGo_length', 'chainGo_eq_iff', 'chainGo_box', 'chainProb_eq_prod', 'chain_selects_jointly',
         'mdpRollout_selects_jointly', 'pomdpRollout_selects_jointly', 'mdpRollout_head', 'pomdpRollout_head', 'copied_engine_not_product',
         # round 4: Dirichlet / Beta with the underflow fallback of fixes/C08-8: valid for EVERY outcome of the gamma draws; ordinary draws untouched
+        # round 4: bandit models (reward samples): arm index in range for every joint action and every flattened id; reward inside the arm's support
+        'toFactors_valid', 'fb_arm_in_range', 'flat_arm_in_range', 'armSample_in_range', 'fbSampleR_length', 'fbSampleR_getD',
         'dirichletWithFallback_valid', 'dirichletWithFallback_isProb', 'dirichletWithFallback_eq_plain', 'betaWithFallback_in_unit',
     ]],
     'harness': 'harness/c08.cpp',
